@@ -1,14 +1,16 @@
 """Shared by C10/C11/C19/C20: the bounded project universe (must mirror spec/darklua/FrontendUniverse.tla)."""
 UNIVERSE = {"sources": ["a", "sub/b", "sub/c"], "modules": ["sub/c", "lib/m"],
             "requires": {"a": ["lib/m"], "sub/b": ["sub/c", "lib/m"], "sub/c": [], "lib/m": []},
-            "dirs": ["sub"], "configs": ["c1", "c2"]}
+            "dirs": ["sub"], "configs": ["c1", "c2", "c2+skip", "c2+read"]}
 FILES = ["a", "sub/b", "sub/c", "lib/m"]
 # deviation flags of the OPEN findings (the code as it is today); everything else is FALSE (ideal)
 OPEN_FLAGS = {"DevDepsOnExistingOnly": "1", "DevCreateNoNotify": "1"}
+BASE_ENV = {"MORECONFIGS": "1"}
+CONFIGS = ("c1", "c2", "c2+skip", "c2+read")
 P = {"ev": "process", "f": "", "d": "", "c": "", "v": 0}
 
 
-def random_history(rng, n, configs=("c1", "c2")):
+def random_history(rng, n, configs=CONFIGS):
     ex = {f: 1 for f in FILES}
     cfg = configs[0]
     ev = [dict(P)]
